@@ -4,6 +4,9 @@ import (
 	"bytes"
 	"fmt"
 	"os"
+	"reflect"
+	"sort"
+	"strings"
 	"testing"
 	"time"
 
@@ -231,6 +234,10 @@ func checkC03(c c03Case, _ *kit.Collector) kit.Result {
 	// 1. fresh receiver, exact-capacity slice: any access beyond the slice panics
 	r1 := newReceiver(c)
 	ok1, aux1 := r1.parse(c, exact(c.Body))
+	fp1 := ""
+	if ok1 {
+		fp1 = fingerprint(r1.outcome())
+	}
 	outcome := "rejected"
 	if ok1 {
 		outcome = "accepted"
@@ -285,7 +292,7 @@ func checkC03(c c03Case, _ *kit.Collector) kit.Result {
 		}
 	}
 	// 4. the value obtained in step 1 is a function of its bytes for good: decoding other input into other
-	// receivers afterwards (on this goroutine) leaves it equal to what a fresh decode of the same bytes gives
+	// receivers afterwards (on this goroutine) leaves it as it was (fp1 was taken right after step 1)
 	if ok1 {
 		others := [][]byte{c02PriorFrame, c.Body}
 		for _, p := range c.Prior {
@@ -300,19 +307,93 @@ func checkC03(c c03Case, _ *kit.Collector) kit.Result {
 				}
 			}()
 		}
-		r := newReceiver(c)
-		if ok, _ := r.parse(c, exact(c.Body)); ok {
-			if d := diffFull(r.outcome(), r1.outcome()); d != "" {
-				res.Err = kit.Fail("%s: the value decoded first changed while other input was decoded into other receivers: at %s (fresh decode vs. the earlier value)", c.Target, d)
-				// 5. String is total on success (last: some String methods go through Encode, which may normalise the value)
-				if ok1 {
-					r1.str()
-				}
-				return res
-			}
+		if fp2 := fingerprint(r1.outcome()); fp2 != fp1 {
+			res.Err = kit.Fail("%s: the value decoded first changed while other input was decoded into other receivers: %s", c.Target, firstDifference(fp1, fp2))
+			return res
 		}
 	}
+	// 5. String is total on success (last: some String methods go through Encode, which may normalise the value)
+	if ok1 {
+		r1.str()
+	}
 	return res
+}
+
+// fingerprint renders every leaf reachable from v (through pointers, unexported fields included) as text.
+func fingerprint(v any) string {
+	var sb strings.Builder
+	var walk func(x reflect.Value, depth int)
+	walk = func(x reflect.Value, depth int) {
+		if depth > 12 {
+			return
+		}
+		switch x.Kind() {
+		case reflect.Ptr, reflect.Interface:
+			if x.IsNil() {
+				sb.WriteString("nil;")
+				return
+			}
+			walk(x.Elem(), depth+1)
+		case reflect.Struct:
+			sb.WriteString("{")
+			for i := 0; i < x.NumField(); i++ {
+				if x.Field(i).Kind() == reflect.Func {
+					continue
+				}
+				sb.WriteString(x.Type().Field(i).Name + ":")
+				walk(x.Field(i), depth+1)
+			}
+			sb.WriteString("}")
+		case reflect.Slice, reflect.Array:
+			fmt.Fprintf(&sb, "[%d:", x.Len())
+			for i := 0; i < x.Len(); i++ {
+				walk(x.Index(i), depth+1)
+			}
+			sb.WriteString("]")
+		case reflect.Map:
+			keys := x.MapKeys()
+			// by underlying value: key types with a String method may render different keys alike
+			ord := func(k reflect.Value) string {
+				switch k.Kind() {
+				case reflect.Uint, reflect.Uint8, reflect.Uint16, reflect.Uint32, reflect.Uint64:
+					return fmt.Sprintf("%020d", k.Uint())
+				case reflect.Int, reflect.Int8, reflect.Int16, reflect.Int32, reflect.Int64:
+					return fmt.Sprintf("%020d", k.Int()+1<<62)
+				case reflect.String:
+					return k.String()
+				}
+				return fmt.Sprint(k)
+			}
+			sort.Slice(keys, func(i, j int) bool { return ord(keys[i]) < ord(keys[j]) })
+			sb.WriteString("map[")
+			for _, k := range keys {
+				sb.WriteString(ord(k) + "=")
+				walk(x.MapIndex(k), depth+1)
+			}
+			sb.WriteString("]")
+		case reflect.String:
+			fmt.Fprintf(&sb, "%q;", x.String())
+		case reflect.Bool:
+			fmt.Fprintf(&sb, "%v;", x.Bool())
+		case reflect.Int, reflect.Int8, reflect.Int16, reflect.Int32, reflect.Int64:
+			fmt.Fprintf(&sb, "%d;", x.Int())
+		case reflect.Uint, reflect.Uint8, reflect.Uint16, reflect.Uint32, reflect.Uint64, reflect.Uintptr:
+			fmt.Fprintf(&sb, "%d;", x.Uint())
+		case reflect.Float32, reflect.Float64:
+			fmt.Fprintf(&sb, "%v;", x.Float())
+		}
+	}
+	walk(reflect.ValueOf(v), 0)
+	return sb.String()
+}
+
+func firstDifference(a, b string) string {
+	i := 0
+	for i < len(a) && i < len(b) && a[i] == b[i] {
+		i++
+	}
+	lo := max(0, i-60)
+	return fmt.Sprintf("before ...%s | after ...%s", a[lo:min(len(a), i+40)], b[lo:min(len(b), i+40)])
 }
 
 // ---------- generators ----------
